@@ -8,7 +8,8 @@
              t1.VmulS(t1, c) }
    The Vequals test comes FIRST: it is reached on every pass, also when no constraints are given.  It is the only
    thing that ends an unconstrained run whose Newton step rounds away (|t1| below half an ulp of x1 while the
-   residual stays above epsilon): default MaxIterations is MaxInt.  No proofs in this file. *)
+   residual stays above epsilon): default MaxIterations is MaxInt.  The line-search branch of newton_min has the same
+   test right after its single step (nstep_ls).  No proofs in this file. *)
 From Coq Require Import ZArith List Bool.
 From ADV Require Import Base.Num C20.Model C20.ModelRetry.
 Import ListNotations.
@@ -22,7 +23,7 @@ Section Newton.
     end.
   Definition vscale (cc : A) (t : list A) : list A := map (fun a => mul N a cc) t.
 
-  Inductive lres := LStall | LAccept (x2 : list A) | LFuel.
+  Inductive lres := LStall | LAccept (x2 : list A) | LFuel | LSearchErr.
   (* one pass; inl = the loop is left *)
   Definition nstep_pass (cc : A) (constraints : option (list A -> bool)) (x1 t1 : list A) : lres + list A :=
     let x2 := vsub x1 t1 in
@@ -56,16 +57,35 @@ Section Newton.
              end
     end.
 
+  (* newton_min, branch `if getPhi != nil` (the only branch the public RunMin reaches), as repaired:
+         if alpha, err := lineSearch.Run(phi, ...); err != nil { return x1, err }
+         else { t1.VmulS(t1, alpha); x2.VsubV(x1, t1)
+                if Vequals(x1, x2) { return x1, fmt.Errorf("line search failed") } }
+     search: the line search as an ORACLE (None = it returned an error).  One pass, no inner loop. *)
+  Definition nstep_ls (search : list A -> list A -> option A) (x1 t1 : list A) : lres :=
+    match search x1 t1 with
+    | None => LSearchErr
+    | Some alpha => let x2 := vsub x1 (vscale alpha t1) in
+                    if all_eqb N x1 x2 then LStall else LAccept x2
+    end.
+  (* the regression class (the branch before the repair of F-C20-NEWTON-MIN-LS-STALL): no stagnation test *)
+  Definition nstep_ls_notest (search : list A -> list A -> option A) (x1 t1 : list A) : lres :=
+    match search x1 t1 with
+    | None => LSearchErr
+    | Some alpha => LAccept (vsub x1 (vscale alpha t1))
+    end.
+
   (* ---- the outer loop.  E: what the objective returned at the current iterate (y, J / g, H); eval None = error.
      conv: hook or norm < epsilon; isnan: the NaN test; direction None = getDirection failed. *)
   Inductive nres := NInvalidStart | NObjErr | NConverged (x : list A) (i : nat) | NNaN (x : list A)
-                  | NDirErr | NLineSearchFailed (x : list A) (i : nat) | NCap (x : list A) | NInnerFuel.
+                  | NDirErr | NLineSearchFailed (x : list A) (i : nat) | NCap (x : list A) | NInnerFuel
+                  | NSearchErr (x : list A).
   Section Outer.
     Variable E : Type.
     Variable eval : list A -> option E.
     Variables conv isnan : E -> bool.
     Variable direction : E -> option (list A).
-    Variable loop : list A -> list A -> lres.     (* the step loop: nstep_loop / nstep_loop_late with its parameters *)
+    Variable loop : list A -> list A -> lres.     (* the step: nstep_loop / nstep_loop_late / nstep_ls with its parameters *)
     Fixpoint newton_outer (cap : nat) (i : nat) (x1 : list A) (e : E) : nres :=
       match cap with
       | O => NCap x1
@@ -78,6 +98,7 @@ Section Newton.
                    match loop x1 t1 with
                    | LStall => NLineSearchFailed x1 i
                    | LFuel => NInnerFuel
+                   | LSearchErr => NSearchErr x1
                    | LAccept x2 =>
                        match eval x2 with
                        | None => NObjErr
@@ -106,7 +127,7 @@ Section Newton.
       end.
   End Outer.
 End Newton.
-Arguments LStall {A}. Arguments LFuel {A}. Arguments LAccept {A}.
+Arguments LStall {A}. Arguments LFuel {A}. Arguments LAccept {A}. Arguments LSearchErr {A}.
 
 (* ---- gaussJordan.Run: shape guards.  a is n x n (square), submatrix has the default length n; x has xr rows,
    b has bl entries.  0 = runs (no guard fires), 1 = error returned, 2 = panic.
